@@ -5,6 +5,14 @@ coordinates of the four points and compared with the IUPAC closed form  y_ref = 
 x_ref = (b1 x b2).(b2 x b3).  Range, reversal symmetry, mirror antisymmetry and rigid invariance then follow from the
 closed form.  Plus: degenerate guards are collinearity tests only, the value returned is the atan2 in radians, the
 users pass the right atoms in the right order and keep units consistent.
+
+Round 4: a torsion function whose angle is NOT made by one plain atan2 (acos with a sign, copysign, a conditional, two
+atan2 ...) is read on the whole circle (sa/circle.py): sine / cosine terms are identified by polynomial identities and the
+rest of the function is evaluated symbolically on the eight cells phi = 0, pi/2, pi, -pi/2 and the open quadrants; it must
+return phi on every cell (so `sign(s) * acos(c)`, which gives 0 at phi = pi, is a violation, `copysign(acos(c), s)` is not).
+The inter-stem torsion is evaluated on stub stems (rule interstem-points: neighbour, end, end, neighbour about the closest
+pair of stem ends) and tertiary_v2's find_atom / Atom.coordinates on stub frames over call histories (rule
+lookup-current-state: a lookup after a change of the coordinates sees the change).
 """
 from __future__ import annotations
 
@@ -19,21 +27,14 @@ from sa.defuse import Inliner
 from sa.model import norm
 from sa.polyalg import AlgebraError
 from sa import torsion as TA
+from sa import circle as CI
 
 T1, T2, AN = "tertiary", "tertiary_v2", "annotator"
 EPS_MAX = 1e-3
 
 
-def check_function(chk, module: str, qual: str) -> None:
-    repo = chk.repo
-    fi = repo.func(module, qual)
-    chk.note_function(fi)
-    fold = Folder(repo, module)
-    try:
-        res = TA.analyse(fi.node, fold.fold)
-    except AlgebraError as ex:
-        chk.error("torsion-closed-form", fi.where, f"function body is outside the straight-line vector algebra: {ex}")
-        return
+def closed_form_verdict(chk, fi, res, module: str, qual: str) -> None:
+    """One plain atan2(y, x): y / x against the IUPAC ratio, as polynomials."""
     ok = res["same_ratio"] and res["x_positive_multiple"]
     if res["negated_ratio"] and res["x_positive_multiple"]:
         why = "y/x is the exact negation of the IUPAC ratio (x a positive multiple of x_ref): the function returns -phi"
@@ -53,6 +54,83 @@ def check_function(chk, module: str, qual: str) -> None:
         expected="atan2(|b2| b1.(b2 x b3), (b1 x b2).(b2 x b3))",
         found={k: res[k] for k in ("same_ratio", "negated_ratio", "x_positive_multiple", "x_negative_multiple")},
     )
+
+
+def circle_verdict(chk, fi, res, module: str, qual: str) -> None:
+    """The angle is made by something else than one plain atan2 (acos with a sign, copysign, a conditional, two atan2 ...): the
+    value returned is decided on every cell of the circle (sa/circle.py) and must be phi on all of them - including phi = 0 and
+    phi = pi, where the sine term vanishes, and phi = +-pi/2, where the cosine term does."""
+    cells = res["cells"]
+    site = fi.site(res["first"])
+    first_txt = norm(res["first"])[:90]
+    not_angle = [o for _, _, o in cells if o[0] == "not-angle"]
+    undecided = [(c, o) for c, _, o in cells if o[0] == "undecided"]
+    key = f"{module}:{qual}:closed-form"
+    if not_angle:
+        chk.violation("torsion-closed-form", site, f"{qual}: {not_angle[0][1]}", key, expected="phi on the whole circle (-pi, pi]")
+        return
+    if undecided:
+        c, o = undecided[0]
+        chk.error("torsion-closed-form", site, f"the value returned for {c[0]} cannot be decided on the partition of the circle: {o[1]}")
+        return
+    val = lambda c, o: CI.value_at(o[1], c) if o[0] == "value" else o[1]
+    wrong = [(c, g, o) for c, g, o in cells if not (o[0] == "value" and CI.is_phi(o[1], c))]
+    table = {c[0]: val(c, o) for c, _, o in cells}
+    if not wrong:
+        chk.ok("torsion-closed-form", site, f"from `{first_txt}` on, the function is evaluated symbolically on the {len(cells)} cells of the circle (phi = 0, pi/2, pi, -pi/2 and the four open quadrants; sine / cosine terms identified by polynomial identities, {res['norm_atoms']} norm atoms): it returns phi on every cell, i.e. the IUPAC dihedral on the whole of (-pi, pi]")
+        chk.ok("torsion-returned", fi.where, "the whole-circle reading covers every statement up to the return: the value is in radians and unchanged")
+        return
+    # -phi everywhere (pi = -pi as angles)?
+    negated = all(o[0] == "value" and (CI.is_phi(o[1], c, -1) or (c[1] == c[2] and abs(c[1]) == 1 and CI.is_phi(o[1], c, 1))) for c, _, o in cells)
+    if negated:
+        chk.violation("torsion-closed-form", site, f"{qual}: the function returns -phi on every cell of the circle (mirror-image sign convention)", f"{module}:{qual}:sign", expected="phi", found=table)
+        return
+    names = [c[0] for c, _, _ in wrong]
+    if all(o[0] == "value" and o[1].deg for _, _, o in wrong):
+        hint = "the value is converted to degrees before it is returned: the torsion functions return radians"
+    elif all(n in ("phi = 0", "phi = pi") for n in names):
+        hint = "the value is lost where the sine term vanishes: a closed form has to give phi at the ends of the half circles too (phi = pi is the closed end of (-pi, pi]), not only where the sine has a sign"
+    elif all(n in ("phi = pi/2", "phi = -pi/2") for n in names):
+        hint = "the value is lost where the cosine term vanishes"
+    elif all(c[1] < 0 or c[2] < 0 for c, _, _ in wrong):
+        hint = "the sign of the sine term does not reach the result: negative angles are wrong"
+    else:
+        hint = "the combination of the sine and cosine terms is not the angle of the point (cos phi, sin phi)"
+    shown = []
+    for c, g, o in wrong[:3]:
+        notes = ("; ".join(o[2][:3])) if len(o) > 2 and o[2] else ""
+        shown.append(f"for {c[0]}{' (' + g + ')' if g else ''} it returns {val(c, o)}" + (f" [{notes}]" if notes else ""))
+    chk.violation(
+        "torsion-closed-form",
+        site,
+        f"{qual} does not return phi on the whole circle (-pi, pi]: " + "; ".join(shown) + f"; phi is returned on {len(cells) - len(wrong)} of the {len(cells)} cells. {hint[0].upper() + hint[1:]}",
+        key,
+        expected="phi on every cell of the circle",
+        found=table,
+    )
+
+
+def check_function(chk, module: str, qual: str) -> None:
+    repo = chk.repo
+    fi = repo.func(module, qual)
+    chk.note_function(fi)
+    fold = Folder(repo, module)
+    try:
+        res = TA.analyse(fi.node, fold.fold)
+    except TA.NotOneAtan2 as ex0:
+        # not a single plain atan2(y, x): the part from the first inverse trigonometric / sign function on is read on the whole circle
+        try:
+            res = CI.analyse_circle(fi.node, fold.fold)
+        except AlgebraError as ex:
+            chk.error("torsion-closed-form", fi.where, f"function body is outside the straight-line vector algebra: {ex} ({ex0})")
+            return
+    except AlgebraError as ex:
+        chk.error("torsion-closed-form", fi.where, f"function body is outside the straight-line vector algebra: {ex}")
+        return
+    if res.get("circle"):
+        circle_verdict(chk, fi, res, module, qual)
+    else:
+        closed_form_verdict(chk, fi, res, module, qual)
     # degenerate guards: every early return before the atan2 fires only where a cross product (or a bond) is (nearly) zero.
     # The condition is brought to facts `Q < c` (Q a monomial in norms, c folded numerically) whatever its spelling.
     for g, genv, gdefs in res["guards"]:
@@ -170,6 +248,19 @@ def check_function(chk, module: str, qual: str) -> None:
         else:
             arg_at = st
         lohi = [Folder(repo, module).try_fold(a) for a in c.args[1:3]]
+        # fact first: the clipped quantity is, as a polynomial identity, exactly cos(phi) or sin(phi) (a dot product divided by the two lengths ...)
+        top = next((t for t, _ in res.get("envs", []) if any(n is c for n in ast.walk(t))), None)
+        if top is not None and c.args and len(lohi) == 2 and all(isinstance(v, (int, float)) for v in lohi) and lohi[0] <= -1.0 and lohi[1] >= 1.0:
+            env_before = next(e for t, e in res["envs"] if t is top)
+            try:
+                leaves = res.get("leaves") or CI.Leaves(res["alg"], res["pts"])
+                q = res["alg"].ev(c.args[0], env_before)
+                v = None if isinstance(q, TA.Vec) else leaves.classify(q, norm(c.args[0]))
+            except (AlgebraError, CI.Undecided):
+                v = None
+            if isinstance(v, CI.Trig) and v.unit:
+                chk.ok("clip-noop", fi.site(c), f"the clipped quantity equals {v.text()} as a polynomial identity (|b1 x b2| |b2 x b3| times it is the {'cosine' if v.kind == 'c' else 'sine'} term): it lies in [-1, 1], the clip only removes round-off")
+                continue
         if not (isinstance(arg, ast.Call) and astq.callee_name(arg) == "dot" and len(arg.args) == 2 and lohi == [-1.0, 1.0]):
             chk.error("clip-noop", fi.site(c), f"`{norm(c)[:60]}`: clipped quantity is not a dot product clipped to [-1, 1]")
             continue
@@ -185,7 +276,8 @@ def check_function(chk, module: str, qual: str) -> None:
     # after the atan2: the value is returned unchanged (radians) on every path
     from checks import c18e
 
-    c18e.check_returned(chk, fi, res, module)
+    if not res.get("circle"):
+        c18e.check_returned(chk, fi, res, module)
 
 
 def check_users(chk) -> None:
@@ -200,11 +292,15 @@ def check_users(chk) -> None:
 
     # chi of both implementations, the torsion table of tertiary_v2 (evaluated on stub residues / segments; pinned form only as a fallback)
     c18e.check_chi(chk)
+    # the coordinates the table is computed from are the current ones (no answer remembered across a change of the frame)
+    c18e.check_lookup_current(chk)
     c03.check_cis_trans(chk)
     c11.check_bph(chk)
     # chi_class: radians against radians, evaluated on one chi per cell
     c18e.check_chi_class(chk)
-    # inter-stem torsion: radians in, degrees out
+    # inter-stem torsion: (neighbour, end, end, neighbour) about the closest pair of stem ends; radians in, degrees out (evaluated; pinned form as fallback)
+    if c18e.check_interstem(chk):
+        return
     ci = repo.func(T1, "Mapping2D3D.calculate_inter_stem_parameters")
     chk.note_function(ci)
     tr = astq.first_assign(ci.node, "torsion_radians")
@@ -223,11 +319,18 @@ def run(chk) -> None:
         "atan2 is brought to bounds Q < c on monomials in norms (thresholds folded numerically, through np.sin / arcsin / degrees / min / not): Q must be the norm of a cross product of consecutive bonds, the sine "
         "of a bond angle or a bond length, and c <= 1e-3. The statements after the atan2 are evaluated on representative values and proved to return the value unchanged. Users are decided by evaluation of "
         "the fragments on stubs: chi of Residue3D on 12 one-letter names x 11 sets of atoms, chi_class on one chi per cell, the tertiary_v2 torsion table on five stub-segment scenarios, against the IUPAC atom "
-        "table; cis/trans, BPh splits and inter-stem units as before."
+        "table; the inter-stem torsion on stub stems (which pair of stem ends is closest x stem lengths: the four points are neighbour, end, end, neighbour; radians scored, degrees reported); "
+        "tertiary_v2.Residue.find_atom / Atom.coordinates on stub frames (what was looked up before x in-place change of the coordinates / replaced frame: a lookup answers from the current frame); "
+        "cis/trans and BPh splits as before. A torsion function that is not one plain atan2 is evaluated symbolically on the eight cells of the circle (acos / asin / atan2 / sign / copysign / "
+        "conditionals over the sine and cosine terms) and must return phi on every cell, phi = 0 and phi = pi included."
     )
     chk.trusted = ["CPython ast", "numpy cross/dot/norm/arctan2 semantics", "IUPAC-IUB torsion table (spec/iupac_torsions.json)"]
-    chk.assumptions = ["non-degenerate input (no three consecutive points collinear)", "floating-point error is not decided"]
-    chk.robust |= {"torsion-closed-form", "clip-noop", "chi-atoms", "chi-agree", "chi-bases", "backbone-atoms", "cis-trans", "cis-trans-atoms", "bph-split", "bph-class-table", "chi-class-units", "chi-dispatch", "degenerate-guard", "torsion-returned", "torsion-wrapper"}
+    chk.assumptions = [
+        "non-degenerate input (no three consecutive points collinear)",
+        "floating-point error is not decided",
+        "input in the domain of the property (bond lengths 0.8-2.5 A, bond angles 20-160 degrees): a conditional normalisation `v / |v| if |v| > eps else v` whose threshold is below half the smallest value of that norm on the domain takes its first branch; any other conditional stays 'a positive multiple of the same vector'",
+    ]
+    chk.robust |= {"torsion-closed-form", "clip-noop", "chi-atoms", "chi-agree", "chi-bases", "backbone-atoms", "cis-trans", "cis-trans-atoms", "bph-split", "bph-class-table", "chi-class-units", "chi-dispatch", "degenerate-guard", "torsion-returned", "torsion-wrapper", "interstem-points", "lookup-current-state"}
     check_function(chk, T1, "calculate_torsion_angle_coords")
     check_function(chk, T2, "calculate_torsion_angle")
     check_users(chk)
@@ -239,7 +342,9 @@ MANIFEST_ENTRY = {
     "text": "Exact algebraic decision on the current source: for both torsion implementations the atan2 arguments, as polynomials in the 12 coordinates (with positive norm symbols), satisfy y * x_ref = x * y_ref "
     "with x a positive multiple of x_ref, where (y_ref, x_ref) is the IUPAC closed form - a proof over all non-degenerate point quadruples, which constructed-angle sampling can only approximate. "
     "tertiary.py = IUPAC; tertiary_v2.py = exact negation (known finding F18, pinned by a test, reported as KNOWN-FINDING). Degenerate guards are decided as bounds on norm monomials with numerically folded thresholds; "
-    "the returned value, the atom quadruples of chi / the backbone table and the units of chi_class are decided by evaluating the fragments on input-class representatives (stub residues and segments).",
-    "note": "Trusted: numpy primitives; the algebra engine (sa/polyalg.py). Not decided: degenerate branches (0.0 vs NaN), floating-point error.",
+    "the returned value, the atom quadruples of chi / the backbone table, the units of chi_class, the four points of the inter-stem torsion and the freshness of the coordinates a lookup returns are decided by "
+    "evaluating the fragments on input-class representatives (stub residues, segments, stems, frames with a call history). Closed forms other than one atan2 (acos with a sign, copysign, conditionals) are decided "
+    "symbolically on the eight cells of the circle.",
+    "note": "Trusted: numpy primitives; the algebra engine (sa/polyalg.py). Not decided: degenerate branches (0.0 vs NaN), floating-point error, signed zeros; whether the mean angle mu of each inter-stem arrangement is the right one (a datum).",
     "technique": "static analysis: abstract interpretation of straight-line vector code into polynomial normal forms + polynomial identity check against the IUPAC closed form",
 }
